@@ -20,7 +20,7 @@ var droppedPrefixes = []string{
 	"fmt.Print", "fmt.Fprint", "log.", "os.Stderr", "runtime.Gosched", "runtime/debug.",
 	"context.", "github.com/sirupsen/logrus.",
 	"sync.(*WaitGroup).", "sync.(*Once).",
-	"go.opentelemetry.io/collector/pdata/",
+	"go.opentelemetry.io/collector/pdata/", ".error.Error", "error.Error",
 }
 
 func (eng *Engine) isDropped(ref string, fn *types.Func) bool {
@@ -282,11 +282,10 @@ func (ex *Exec) modelled(st *State, ref string, fn *types.Func, recv *Val, args 
 			return one(nv)
 		}
 	// ---- slices / maps helpers
-	case "slices.Contains":
+	case "slices.Contains", "golang.org/x/exp/slices.Contains":
 		s, v := args[0], args[1]
 		if s.Sh != nil && s.Sh.Kind == "slice" && s.kid("elems").Sh.IsLeaf() {
-			ex.eng.qn++
-			q := fmt.Sprintf("q_sc_%d", ex.eng.qn)
+			q := "q_sc"
 			return one(b("(exists ((" + q + " Int)) (and (<= 0 " + q + ") (< " + q + " " + s.kid("len").S + ") (= (select " + s.kid("elems").S + " " + q + ") " + v.S + ")))"))
 		}
 	case "sync.(*Map).Load", "sync.(*Map).Store", "sync.(*Map).LoadOrStore", "sync.(*Map).Delete":
@@ -366,6 +365,15 @@ func (ex *Exec) modelled(st *State, ref string, fn *types.Func, recv *Val, args 
 			ex.assumption("wyhash.Hash: a deterministic function of the input bytes and seed (uninterpreted)")
 			return one(ex.intVal("(uf_wyhash "+d.kid("elems").S+" "+d.kid("len").S+" "+args[1].S+")", r0()))
 		}
+	case "internal/otelutil.StartSpan":
+		// the derived context carries the same request metadata: identified with its parent
+		ex.assumption("otelutil.StartSpan: the derived context is identified with its parent (it carries the same request metadata)")
+		ex.modelUsed[ref]++
+		rs := ex.freshResults(fn, resT, "span")
+		if len(rs) == 2 && len(args) > 0 {
+			rs[0] = ex.retype(args[0], rs[0].T)
+		}
+		return rs, true
 	case "os.Exit":
 		st.assume("false")
 		return none()
